@@ -45,6 +45,20 @@ def walk(c, rep, prop, cfg):
             continue
         if op == 'cv': pool2[int(a[1])] = dict(pool[int(a[2])]) if pool[int(a[2])] else None; continue
         if op == 'wr': continue
+        if op == 'c4':
+            seg = next(it, None); want = pool[int(a[2])]
+            if want is None:
+                if seg != 'none': return bad('empty-slot-reported-as-view', cmd=cmd, got=seg)
+                continue
+            if acc != 'def':
+                if seg != 'no-ctor': return bad('harness-desync', cmd=cmd, got=seg)
+                continue
+            o = V.parse_obs(seg[3:].split(' asg=')[0]) if seg and seg.startswith('c4 ') else None
+            if o is None: return bad('observation-undefined', cmd=cmd, got=seg)
+            if prop == 'C11':
+                if o['h'] != want['h'] or o['e'] != want['e'] or o['s'] != want['s']: return bad('converted-view-differs-in-handle-or-mapping', cmd=cmd, got=seg, specified=want)
+                if o['acc'] != 77 or not seg.endswith(' asg=77'): return bad('accessor-of-the-converted-view-is-not-the-conversion-of-the-source-accessor', cmd=cmd, got=seg, specified='acc=77 (A(other.accessor())), asg=77')
+            continue
         seg = next(it, None)
         if seg is None: return bad('missing-output', cmd=cmd)
         if op in ('ob', 'o2', 'o3'):
